@@ -219,7 +219,18 @@ impl RuleConfiguration for ConvertRequire {
     }
 
     fn serialize_to_properties(&self) -> RuleProperties {
-        RuleProperties::new()
+        let mut properties = RuleProperties::new();
+
+        let default = Self::default();
+
+        // both modes are required when reading the rule: write both of them as soon as
+        // one is not the default mode
+        if self.current != default.current || self.target != default.target {
+            properties.insert("current".to_owned(), (&self.current).into());
+            properties.insert("target".to_owned(), (&self.target).into());
+        }
+
+        properties
     }
 
     fn set_metadata(&mut self, metadata: RuleMetadata) {
